@@ -61,3 +61,13 @@ claim("C05",
       "exhaustive enumeration of HALT x follower opcode x IME x pending state x request arrival time on the real CPU in lock-step with the reference HALT/halt-bug machine",
       "HALT followed by each of the 500 executable encodings, under both IME values, 8 IE/IF combinations and one request of each source arriving before every cycle of the idle bound (8, thorough 32) or never; while idle every cycle is compared (nothing may change), wake-up with IME=1 must dispatch in 6 cycles, wake-up with IME=0 must resume at the following instruction leaving IF untouched, and HALT with IME=0 and a pending request must execute the following byte twice.",
       "IME=0 wake-up latency (0-4 cycles) and the halt bug in front of a CB prefix are don't-cares.")
+
+claim("C06",
+      "exhaustive enumeration of addresses x values through the real Mapper from several machine states against a reference address map / register table",
+      "From 7 machine states (power-on, LCD off, LCD+APU off, after a busy ROM, MBC1 with RAM enabled, channel 3 playing, DMA in flight) the plain-memory regions (WRAM and its echo in both directions, HRAM, IE, and VRAM/OAM with the LCD off) get three complete write sweeps in different orders and patterns, each followed by a complete read-back of all plain memory, plus all 256 values at every region-boundary address; every I/O address FF00-FF7F gets all 256 values with the read-back compared to (written & writable) | always-one | read-only bits from a register table (IF E0, TAC F8, STAT 80 + read-only mode/coincidence, sound masks, DMA/BGP/OBP0/OBP1/SCX/SCY/LYC/WX/WY full), DIV and LY never take the value, unmapped addresses read FF and FEA0-FEFF reads 00.",
+      "Trusted: ref/addrmap.go. No machine cycle elapses between write and read (LY with the LCD on: one cycle). NR52 and the JOYP input nibble are judged by C18/C19/C22.")
+
+claim("C07",
+      "exhaustive enumeration of single writes with a full 64 KiB before/after diff on the real Mapper against documented effect sets",
+      "For every address in FE00-FFFF, every 0x100-aligned address +-1 and every region boundary +-1 (thorough: all 65,536 addresses) x 8 values x 7 machine states, the whole 64 KiB space is read before and after one Mapper.Write; every changed location must belong to the documented effect set of the written address (own value and mirror, cartridge windows for control writes, LCDC->STAT/LY, DMA->OAM window, NR52->sound registers and wave RAM, envelope/trigger/sweep/DAC->NR52 status, NR30/NR34->wave RAM window).",
+      "The new values of documented side effects are judged by the owning properties (C06/C08/C09/C18/C19); C07 only bounds *where* a write may have an effect.")
